@@ -84,11 +84,23 @@ def make_memento(ref_with_args, value, t=T0):
         runner={"type": "local"}, correlation_id="cid_verif", content_key=None)
 
 
+def arg_value(arg):
+    """the argument of a call in a history: a small integer, or a token standing for a structured value"""
+    if not isinstance(arg, str):
+        return arg
+    tz = datetime.timezone(datetime.timedelta(hours=5, minutes=30))
+    return {"@dt530": datetime.datetime(2021, 3, 4, 5, 6, 7, tzinfo=tz), "@naive": datetime.datetime(2021, 3, 4, 5, 6, 7),
+            "@date": datetime.date(2021, 3, 4), "@nested": {"k": [1, {"z": None, "a": 2.5}], "b": "t\u00e9"}, "@float": 1.0}[arg]
+
+
 class Session:
     """Drives several stores in lock-step against one dictionary model."""
 
     def __init__(self, scratch, case, stores=None):
         self.case = case
+        # (the memory cache estimates the size of large frames from a random row sample drawn with numpy's global generator)
+        import numpy
+        numpy.random.seed(0)
         self.refs = hfuncs.refs()
         budget_kb = case.get("budget_kb")
         self.budget_mb = (budget_kb / 1024.0) if budget_kb else None
@@ -100,7 +112,7 @@ class Session:
                 for f, a in pairs:
                     if (f, a) not in seen:
                         seen.add((f, a))
-                        decoy_refs.append(self.refs[f].with_args(a))
+                        decoy_refs.append(self.refs[f].with_args(arg_value(a)))
             self.labels_init = {"config-dict-reused"}
         self.stores = stores if stores is not None else [
             Store(kind, os.path.join(scratch, kind), budget_mb=self.budget_mb,
@@ -119,7 +131,7 @@ class Session:
 
     # -- helpers -------------------------------------------------------------------------
     def rwa(self, fnkey, arg):
-        return self.refs[fnkey].with_args(arg)
+        return self.refs[fnkey].with_args(arg_value(arg))
 
     def key(self, fnkey, arg):
         r = self.rwa(fnkey, arg)
